@@ -72,4 +72,37 @@ def initializeTickArrayIx (dynamic idem : Bool) (pre : TarrPre) (start : Int) (t
     | .fixed | .dynamic => if idem then .ok .existing else .error "AccountDiscriminatorAlreadySet"
     | .nothing => if !validStartTick start ts then .error "InvalidStartTick" else .ok .createdDynamic
 
+/-- `initialize_config_extension` -/
+def initializeConfigExtensionIx (auth : Nat) (taken : Bool) : Except String Unit :=
+  if auth = 2 then .error "AccountNotSigner"
+  else if taken then .error "AccountAlreadyInitialized"
+  else if auth = 1 then .error "ConstraintAddress"
+  else .ok ()
+
+/-- `initialize_token_badge`: `feature` = the config's TOKEN_BADGE flag, `taken` = a badge already sits at the
+    address, `otherExt` = the extension account passed belongs to another config (its badge authority signs) -/
+def initializeTokenBadgeIx (auth : Nat) (feature taken otherExt : Bool) : Except String Unit :=
+  if auth = 2 then .error "AccountNotSigner"
+  else if taken then .error "AccountAlreadyInitialized"
+  else if otherExt then .error "ConstraintHasOne"
+  else if auth = 1 then .error "ConstraintAddress"
+  else if !feature then .error "FeatureIsNotEnabled"
+  else .ok ()
+
+/-- `delete_token_badge` -/
+def deleteTokenBadgeIx (auth : Nat) (feature present : Bool) : Except String Unit :=
+  if auth = 2 then .error "AccountNotSigner"
+  else if !present then .error "AccountNotInitialized"
+  else if auth = 1 then .error "ConstraintAddress"
+  else if !feature then .error "FeatureIsNotEnabled"
+  else .ok ()
+
+/-- `initialize_pool` (v1): SPL Token mints only, no admission table -/
+def initializePoolV1 (keyA keyB : Nat) (t22a t22b : Bool) (price ts tierTs fee proto : Nat) : Except String PoolD :=
+  if t22a || t22b then .error "AccountOwnedByWrongProgram"
+  else if tierTs ≠ ts then .error "ConstraintRaw"
+  else match initializePoolChecks keyA keyB price ts fee proto with
+    | .error e => .error e.name
+    | .ok p => .ok p
+
 end WP
